@@ -97,7 +97,9 @@ def _h(*parts) -> int:
 
 # ----------------------------------------------------------------------------- scalar generation
 FLOATS = [0.1, 1e-07, 123456.789, 0.30000000000000004, 2.5, 1 / 3, 5e-324, 1.7976931348623157e+308, 44100.0, 0.0]
-STRS = ["plain", "Ünï©ødé ✓", "with space", "a/b\\c", "", "\"quoted\"", "line\nbreak", "日本語"]
+STRS = ["plain", "Ünï©ødé ✓", "with space", "a/b\\c", "", "\"quoted\"", "line\nbreak", "日本語",
+        # leading / trailing white space is part of the value (any trimming on the way to the document shows)
+        "  padded both  ", "trailing ", "\tleading tab", " "]
 GEOMS = [
     None,
     lambda: data.TimeStamp(coordinates=0.1),
@@ -161,7 +163,8 @@ def gen_value(cls, fname, finfo, key, present: bool):
     if ann is str:
         if fname == "email":
             return ["a@b.org", "first.last+tag@example.com"][h % 2]
-        return STRS[h % len(STRS)] + (f"-{fname}" if h % 3 else "")
+        st = STRS[h % len(STRS)]
+        return st + (f"-{fname}" if h % 3 and not st.endswith(" ") else "")
     if ann is uuid.UUID:
         return None
     if ann is datetime.datetime:
@@ -227,7 +230,7 @@ def build_world(case, audio_root: Path):
         elif k == "tag":
             # distinct tags that share a key or a value with another tag (the registry keys tags by (label, value))
             n = int("".join(ch for ch in i if ch.isdigit()) or 0)
-            tkey, tval = "key_" + "abbca"[n % 5] + str(n // 5), ["v one", "v one", "välue 2", "v one", "välue 2"][n % 5]
+            tkey, tval = "key_" + "abbca"[n % 5] + str(n // 5), ["v one", "v one", "välue 2", "v one", " v one "][n % 5]
             # every tag's term has the SAME name and its own label: the document format identifies a tag by (label, value)
             o = data.Tag(term=data.Term(name="verif:shared_name", label=tkey, definition="shared name, own label"), value=tval)
             assert (tkey, tval) not in rev, "tag catalogue must be injective"
